@@ -1,7 +1,7 @@
 (* Properties_C11.v — C11 "regular-expression rewrites accept exactly the same language".
    Only statements closed by [exact]; see Proofs_Regex*.v.  Naming: _partial = holds under the stated guard,
    _refuted = the unguarded statement is false, with a concrete witness. *)
-From GC Require Import Base Model_Regex Model_RegexSimplify Proofs_Regex Proofs_RegexRules Proofs_RegexSimplify Proofs_RegexWalk Proofs_RegexWalkS Proofs_RegexLit Proofs_RegexPrint Model_RegexText Proofs_RegexText.
+From GC Require Import Base Model_Regex Model_RegexSimplify Proofs_Regex Proofs_RegexRules Proofs_RegexSimplify Proofs_RegexWalk Proofs_RegexWalkS Proofs_RegexLit Proofs_RegexPrint Model_RegexText Proofs_RegexText Model_RegexParse Proofs_RegexParse.
 
 (* observational equivalence gives the same FindStringSubmatchIndex vector on every subject *)
 Theorem C11_equiv_same_matches : forall a b n, req a b -> forall s, go_vec n (find a s) = go_vec n (find b s).
@@ -389,3 +389,50 @@ Theorem C11_emitted_operand_is_operand : forall x st r, den x st = Some r -> op_
   op_eqb (sx_op (seq_node (fst (walk_a true x)))) OpFlagOnlyGroup = false.
 Proof. exact emits_operand_holds. Qed.
 Print Assumptions C11_emitted_operand_is_operand.
+
+(* ---------- text level, whole patterns (Model_RegexParse: the lexer and the precedence parser of the library the
+   checker uses - quantifiers, lazy markers, literal braces, octal and hex escapes, groups, alternation - tied to the
+   real parser on every dumped tree) ---------- *)
+
+(* tokens of a tree of printable shape are parsed back to the tree, up to the Value texts of inner nodes and a
+   concatenation of one item (canon) *)
+Theorem C11_parse_tokens_roundtrip_partial : forall t, pattern_ok t = true -> parse_rtoks (toks_of t) = Some (canon t).
+Proof. exact parse_toks_roundtrip. Qed.
+Print Assumptions C11_parse_tokens_roundtrip_partial.
+
+(* the text of a token sequence is lexed back to that sequence; guards, with one byte of look-ahead: a bare `{` is not
+   followed by a digit, a 1-2 digit octal escape is not followed by an octal digit, \xHH has two hex digits, `(` is not
+   followed by `?`, a repeat is a well-formed {n} {n,} {n,m}, no bare operator, classes satisfy the class guards *)
+Theorem C11_lex_text_roundtrip_partial : forall ts, rtoks_ok ts = true -> lex_re (rtoks_text ts) = Some ts.
+Proof. exact lex_re_roundtrip. Qed.
+Print Assumptions C11_lex_text_roundtrip_partial.
+
+Theorem C11_text_roundtrip_partial : forall t,
+  pattern_ok t = true -> rtoks_ok (toks_of t) = true -> rtoks_text (toks_of t) = print t -> parse_re (print t) = Some (canon t).
+Proof. exact text_roundtrip. Qed.
+Print Assumptions C11_text_roundtrip_partial.
+
+(* THE PRINTED REWRITE: tree guards /\ text guards => the text the checker prints, parsed by the text model, elaborates
+   to an expression equivalent to the original pattern on all subjects, with the same groups *)
+Theorem C11_printed_rewrite_sound_partial : forall pat t1 t2f final,
+  simplify2 pat t1 t2f = Some final ->
+  final_ok t1 (t2f (simplify1 t1)) = true ->
+  tree_text_ok (final_tree t1 (t2f (simplify1 t1))) = true ->
+  exists p a b n names,
+    parse_re final = Some p /\ den_top t1 = Some (a, n, names) /\ den_top p = Some (b, n, names) /\ req b a /\
+    forall subject, find_go p subject = find_go t1 subject.
+Proof. exact printed_rewrite_sound. Qed.
+Print Assumptions C11_printed_rewrite_sound_partial.
+
+(* the re-lexing witnesses at pattern level, and the seeded family `[\12]3` => `\123`: the guards fail and the text
+   really reads back as another tree *)
+Example C11_text_guards_whole_patterns :
+  tree_text_ok ex_capture_factor = true /\
+  rtoks_ok (toks_of (simp_ast t_unwrap_g)) = false /\ rtoks_ok (toks_of (simp_ast t_esc_rep)) = false /\
+  rtoks_ok (toks_of (simp_ast t_oct)) = false /\
+  rtoks_ok [RLit (TEsc OpEscapeOctal "\12"); RLit (TChar "3")] = false /\
+  lex_re "\123" = Some [RLit (TEsc OpEscapeOctal "\123")] /\
+  rtoks_ok [RLit (TChar "a"); RLit (TChar "{"); RLit (TChar "2")] = false /\
+  rtoks_ok [RLit (TChar "a"); RLit (TChar "{"); RLit (TChar "x"); RLit (TEsc OpEscapeHex "\x{10FFFF}"); RLit (TEsc OpEscapeOctal "\123"); RLit (TChar "4")] = true.
+Proof. repeat split; vm_compute; reflexivity. Qed.
+Print Assumptions C11_text_guards_whole_patterns.
